@@ -100,6 +100,8 @@ def build(rec, markers):
 
     class BrokenReprMw(Middleware):
         def __repr__(self):
+            if rec.get('_variant', 0) % 3 == 2:
+                raise broken_exc()        # an exception WITHOUT arguments (a bare `raise NotImplementedError`, a failed assert)
             raise broken_exc('repr of this middleware is broken')
 
     class PlainMw(Middleware):
@@ -121,6 +123,8 @@ def build(rec, markers):
         res[names_of(rec)[r['nc']]] = value_of(r['vk'], markers[r['nc']])
         if r['vk'] == 'obj' and r['nc'] in ('prefix', 'infix', 'suffix', 'exact') and rec.get('_variant', 0) % 2:
             res[names_of(rec)[r['nc']]] = RaisingRepr(markers[r['nc']])     # a secret is never repr()-ed, so this is harmless
+        elif r['vk'] == 'nested' and r['nc'] not in ('prefix', 'infix', 'suffix', 'exact') and rec.get('_variant', 0) % 2 == 0:
+            res[names_of(rec)[r['nc']]] = (markers[r['nc']], 5432)       # a tuple-valued resource (host, port)
         elif r['vk'] == 'obj' and rec.get('_variant', 0) % 4 == 2:
             res[names_of(rec)[r['nc']]] = FalsyObj(markers[r['nc']])       # redaction goes by the NAME; the value may be falsy
         elif r['vk'] == 'str' and r['nc'] in ('prefix', 'infix', 'suffix', 'exact') and rec.get('_variant', 0) % 5 == 3:
@@ -243,7 +247,9 @@ def project(rec, markers, status, body, is_json):
     keyleak = any(KEYMARK in v or MIDMARK in v for v in vs)
     inline_ok = True
     if 'brokenrepr' in rec['mws']:
-        inline_ok = any('repr of this middleware is broken' in v for v in vs)
+        inline_ok = any('repr of this middleware is broken' in v for v in vs) or \
+            (rec.get('_variant', 0) % 3 == 2 and any(n_ in v for v in vs for n_ in ('RuntimeError', 'ZeroDivisionError', 'AssertionError',
+                                                                                       'AppSpecificError', 'KeyError', 'OSError')))
     return {'status': status, 'res': res, 'keyleak': keyleak, 'inline_ok': inline_ok}
 
 
